@@ -8,7 +8,6 @@ package c15
 // so that only documented, total operations are produced.
 
 import (
-	"errors"
 	"fmt"
 	"regexp"
 	"sort"
@@ -26,8 +25,6 @@ type Expr struct {
 	Keys []string `json:"keys,omitempty"`
 	Args []*Expr  `json:"args,omitempty"`
 }
-
-var errZeroSign = errors.New("float arithmetic with a zero result")
 
 var identRe = regexp.MustCompile(`^[a-z][a-z0-9]*$`)
 
@@ -221,13 +218,8 @@ func (e *Expr) eval(env map[string]tengo.Object) (tengo.Object, error) {
 		default:
 			r = a / b
 		}
-		if r == 0 {
-			// The sign of a zero result is the business of the arithmetic
-			// properties (C01), not of the value exchange: tengo returns the
-			// left operand when the result compares equal to it, so that
-			// -0.0 + 0.0 is -0.0 instead of IEEE's +0.0. Not judged here.
-			return nil, errZeroSign
-		}
+		// A zero result carries the IEEE sign (-0.0 + 0.0 is +0.0): judged
+		// bit for bit since b578847 (FINDINGS.md, observation O3).
 		return &tengo.Float{Value: r}, nil
 	case "cat":
 		a, ok1 := args[0].(*tengo.String)
